@@ -90,6 +90,20 @@ func badDefs() []badDef {
 	one("pointer:to-map", reflect.PtrTo(reflect.MapOf(rtI32, rtStr)), `frugal:"2,optional,map<i32:string>"`)
 	one("pointer:to-binary", reflect.PtrTo(reflect.TypeOf([]byte(nil))), `frugal:"2,optional,binary"`)
 	one("pointer:list-of-pointer-to-pointer", reflect.SliceOf(reflect.PtrTo(reflect.PtrTo(rtNamed))), `frugal:"2,optional,list<Named>"`)
+	// 7b. the same Go-type-level classes with the type descriptor omitted (rejection must not depend on how the tag is spelled)
+	for _, tag := range []string{`frugal:"2,default"`, `thrift:"hits,2"`} {
+		sfx := "(typeless:" + tag[:6] + ")"
+		one("map-key:struct-by-value"+sfx, reflect.MapOf(rtNamed, rtI32), tag)
+		one("map-key:pointer-to-scalar"+sfx, reflect.MapOf(reflect.PtrTo(rtI32), rtStr), tag)
+		one("pointer:map-value"+sfx, reflect.MapOf(rtStr, reflect.PtrTo(rtI32)), tag)
+		one("pointer:map-value-nested"+sfx, reflect.MapOf(rtI32, reflect.MapOf(rtStr, reflect.PtrTo(reflect.TypeOf(false)))), tag)
+		one("pointer:default-requiredness-field"+sfx, reflect.PtrTo(rtI32), tag)
+		one("pointer:to-pointer-scalar"+sfx, reflect.PtrTo(reflect.PtrTo(rtI32)), tag)
+		one("pointer:to-map"+sfx, reflect.PtrTo(reflect.MapOf(rtI32, rtStr)), tag)
+		one("unsupported-map-value"+sfx, reflect.MapOf(rtI32, reflect.TypeOf(uint32(0))), tag)
+		one("unsupported-map-key"+sfx, reflect.MapOf(reflect.TypeOf(uint16(0)), rtStr), tag)
+	}
+	one("pointer:required-field(typeless)", reflect.PtrTo(rtStr), `frugal:"2,required"`)
 	// 8. duplicate ids
 	out = append(out, badDef{"duplicate-id", []reflect.StructField{sfield(0, rtI32, `frugal:"7,default,i32"`), sfield(1, rtStr, `frugal:"7,default,string"`)}})
 	out = append(out, badDef{"duplicate-id-frugal-thrift", []reflect.StructField{sfield(0, rtI32, `frugal:"7,default,i32"`), sfield(1, rtStr, `thrift:"x,7,default,string"`)}})
